@@ -142,7 +142,11 @@ def _try(f, *a, **k):
 
 def api_tree(ctx, spec, rng):
     R = ctx.R
-    live = common.live_tree(ctx, spec, rng)
+    inplace = rng.random() < 0.25
+    # the trees that are restructured in place below come from a reader
+    # (export, TIGER-XML) in half of the cases: whatever a reader leaves on
+    # the nodes besides the tree must not stand in for the token positions
+    live = common.live_tree(ctx, spec, rng, via=0.5 if inplace else None)
     m = _set_cur(ctx, spec, live)
     for n in m.nodes():
         _try(R.treeanalysis.gap_degree_node, n.ref)
@@ -169,7 +173,7 @@ def api_tree(ctx, spec, rng):
         _fail('three-notions-disagree', 'set-based gap degree %d, '
               'gap_degree() %r, bracket writer refused=%r, grammar '
               'context-free=%r' % (exp, gd, refused, cf))
-    if rng.random() < 0.25:
+    if inplace:
         # same tree objects changed in place, analysed again; before that
         # the tree is looked at (written, numbered, a grammar extracted ...):
         # nothing such a look leaves on the nodes may stand in for the
@@ -184,11 +188,32 @@ def api_tree(ctx, spec, rng):
                         + what)
         try:
             with common.captured():
-                t2 = R.transform.root_attach(live)
-                if rng.random() < 0.6:
-                    t2 = R.transform.negra_mark_heads(t2)
-                    t2 = R.transform.boyd_split(t2)
-                    t2 = R.transform.raising(t2)
+                how = rng.choice(['root_attach', 'raise', 'raise',
+                                  'punctuation_root', 'punctuation_verylow',
+                                  'delete'])
+                if how in ('punctuation_root', 'punctuation_verylow'):
+                    # constituents that were continuous lose a token from
+                    # their middle / get one into their middle
+                    toks_ = sorted(R.trees.unordered_terminals(live),
+                                   key=lambda t: t.data['num'])
+                    for t_ in toks_:
+                        if rng.random() < 0.35:
+                            t_.data['word'] = rng.choice([',', '.', '"'])
+                    t2 = getattr(R.transform, how)(live)
+                elif how == 'delete':
+                    toks_ = sorted(R.trees.unordered_terminals(live),
+                                   key=lambda t: t.data['num'])
+                    t2 = live
+                    if len(toks_) >= 3:
+                        R.trees.delete_terminal(
+                            live, toks_[rng.randrange(len(toks_))])
+                else:
+                    t2 = R.transform.root_attach(live)
+                    if how == 'raise':
+                        t2 = R.transform.negra_mark_heads(t2)
+                        t2 = R.transform.boyd_split(t2)
+                        t2 = R.transform.raising(t2)
+                ctx.stratum('in-place transformation: ' + how)
         except Exception:
             t2 = None
         if t2 is not None:
